@@ -36,11 +36,11 @@ instance optBits : NumBits (Opt K sq) where
 private theorem eps_pos' : letI := fieldNum K sq; (0 : K) < Dist.eps := lit_pos 1 _ (by decide) (by decide)
 
 /-- lifting of `ClosestPoints` -/
-def liftCP3 : CP (V3 K) → CP (V3 (Opt K sq))
+def liftDistCP3 : CP (V3 K) → CP (V3 (Opt K sq))
   | .intersecting => .intersecting
   | .within a b => .within (lift3 a) (lift3 b)
   | .disjoint => .disjoint
-def liftCP2 : CP (V2 K) → CP (V2 (Opt K sq))
+def liftDistCP2 : CP (V2 K) → CP (V2 (Opt K sq))
   | .intersecting => .intersecting
   | .within a b => .within (lift2 a) (lift2 b)
   | .disjoint => .disjoint
@@ -69,7 +69,7 @@ normalised only when `|delta| > r1 + r2 ≥ 0`, so the divisor `sqrt |delta|²` 
 theorem defined_c01_closestPointsBallBall (pos12 : Iso3 K) (r1 r2 margin : K) (hr : 0 ≤ r1 + r2) :
     letI := fieldNum K sq
     closestPointsBallBall (liftIso3 pos12 : Iso3 (Opt K sq)) (val r1) (val r2) (val margin)
-      = (closestPointsBallBall pos12 r1 r2 margin).map (liftCP3 sq) := by
+      = (closestPointsBallBall pos12 r1 r2 margin).map (liftDistCP3 sq) := by
   letI := fieldNum K sq
   simp only [closestPointsBallBall, optsimp]
   opt_steps
@@ -78,7 +78,7 @@ theorem defined_c01_closestPointsBallBall (pos12 : Iso3 K) (r1 r2 margin : K) (h
 theorem defined_c01_closestPointsBallBall2 (pos12 : Iso2 K) (r1 r2 margin : K) (hr : 0 ≤ r1 + r2) :
     letI := fieldNum K sq
     closestPointsBallBall2 (liftIso2 pos12 : Iso2 (Opt K sq)) (val r1) (val r2) (val margin)
-      = (closestPointsBallBall2 pos12 r1 r2 margin).map (liftCP2 sq) := by
+      = (closestPointsBallBall2 pos12 r1 r2 margin).map (liftDistCP2 sq) := by
   letI := fieldNum K sq
   simp only [closestPointsBallBall2, optsimp]
   opt_steps
@@ -132,7 +132,7 @@ theorem defined_c01_halfspaceSupportMap
     letI := fieldNum K sq
     distanceHalfspaceSupportMap suppT (liftIso3 pos12) (lift3 n) = val (distanceHalfspaceSupportMap suppT' pos12 n) ∧
     closestPointsHalfspaceSupportMap supp (liftIso3 pos12) (lift3 n) (val margin)
-      = (closestPointsHalfspaceSupportMap supp' pos12 n margin).map (liftCP3 sq) := by
+      = (closestPointsHalfspaceSupportMap supp' pos12 n margin).map (liftDistCP3 sq) := by
   letI := fieldNum K sq
   refine ⟨?_, ?_⟩
   · simp only [distanceHalfspaceSupportMap, optsimp, hT]
@@ -149,7 +149,7 @@ theorem defined_c01_halfspaceSupportMap2
     letI := fieldNum K sq
     distanceHalfspaceSupportMap2 suppT (liftIso2 pos12) (lift2 n) = val (distanceHalfspaceSupportMap2 suppT' pos12 n) ∧
     closestPointsHalfspaceSupportMap2 supp (liftIso2 pos12) (lift2 n) (val margin)
-      = (closestPointsHalfspaceSupportMap2 supp' pos12 n margin).map (liftCP2 sq) := by
+      = (closestPointsHalfspaceSupportMap2 supp' pos12 n margin).map (liftDistCP2 sq) := by
   letI := fieldNum K sq
   refine ⟨?_, ?_⟩
   · simp only [distanceHalfspaceSupportMap2, optsimp, hT]
@@ -262,9 +262,9 @@ theorem defined_c01_closestPointsSegmentSegment (pos12 : Iso3 K) (a1 b1 a2 b2 : 
     (pos12' : Iso2 K) (p1 q1 p2 q2 : V2 K) (margin : K) :
     letI := fieldNum K sq; letI := C01.fieldBits K
     closestPointsSegmentSegment (liftIso3 pos12 : Iso3 (Opt K sq)) (lift3 a1) (lift3 b1) (lift3 a2) (lift3 b2) (val margin)
-      = liftCP3 sq (closestPointsSegmentSegment pos12 a1 b1 a2 b2 margin) ∧
+      = liftDistCP3 sq (closestPointsSegmentSegment pos12 a1 b1 a2 b2 margin) ∧
     closestPointsSegmentSegment2 (liftIso2 pos12' : Iso2 (Opt K sq)) (lift2 p1) (lift2 q1) (lift2 p2) (lift2 q2) (val margin)
-      = liftCP2 sq (closestPointsSegmentSegment2 pos12' p1 q1 p2 q2 margin) := by
+      = liftDistCP2 sq (closestPointsSegmentSegment2 pos12' p1 q1 p2 q2 margin) := by
   letI := fieldNum K sq; letI := C01.fieldBits K
   refine ⟨?_, ?_⟩
   · simp only [closestPointsSegmentSegment, optsimp, (defined_c01_segSegParams sq _ _ _ _ p1 q1 p2 q2).1, liftKK]
